@@ -19,6 +19,7 @@ func file.(*ReplicaClient).WriteLTXFile(c, ctx, level, minTXID, maxTXID, rd) (in
   at internal.CreateFile#all assert [C03.tmp-only] hasSuffix($arg0, ".tmp") && $arg0 == tmpFilename
   at os.Rename#all assert [C03.publish-from-tmp] $arg0 == tmpFilename && $arg1 == filename && tmpFilename == concat(filename, ".tmp") && !wl_renamed
   at os.Rename#all assert [C11.flush] f != nil && path_handle[$arg0] == f && path_synced[$arg0] && file_closed[f]
+  at os.Remove#any assert [C03.no-unlink-final] $arg0 == tmpFilename
   at os.Rename#1 set wl_dst = $arg1
   at os.Rename#1 set wl_renamed = ($result0 == nil)
   at os.Chtimes#all assert [C15.mtime-arg] $arg0 == filename && $arg1 == timestamp && $arg2 == timestamp && wl_renamed
